@@ -34,7 +34,7 @@ G_C10_NoPanic(r, o)    == ~o.panic
 \* ------------------------------------------------------------------ C02: content binding
 Std5 == {"permit-X11-forwarding", "permit-agent-forwarding", "permit-port-forwarding", "permit-pty", "permit-user-rc"}
 
-\* r.user = [typed, norm]; r.target in {"self","other","othercase"}; r.ext = set of <<key, value>> expected
+\* r.user = [typed, norm]; r.target in Targets; r.ext = set of <<key, value>> expected
 G_C02_Subject(r, o) == o.issued /\ r.path \in UserPaths =>
                           IF o.kind = "ssh" THEN o.principals = <<r.user.norm>> ELSE o.cn = r.user.norm
 G_C02_Key(r, o)     == o.issued => o.keyfp = r.key.fp
@@ -128,7 +128,10 @@ Svc   == [typed |-> "svc", norm |-> "svc"]
 D1h   == Dur("1h", TRUE, TRUE, 3600)
 Fresh == [cred |-> "cookie", age |-> 0]
 
-InC02(r) == \E u \in NameClasses, k \in GoodKeys, p \in UserPaths, w \in Worlds, t \in {"self", "other", "othercase"} :
+\* what follows /certgen/ in the URL: the caller's own name, another user's, the own name in another case, and longer paths
+\* that merely END in (or start with) the own name - each of them names somebody else
+Targets == {"self", "other", "othercase", "other/self", "self/", "self/other", "./self"}
+InC02(r) == \E u \in NameClasses, k \in GoodKeys, p \in UserPaths, w \in Worlds, t \in Targets :
               r = Req(p, u, k, D1h, Fresh, t, w)
 \* where the client puts the duration parameter: in the request body (the stock client) or in the URL's query string
 DurLocs == {"body", "query"}
